@@ -144,6 +144,26 @@ def linear(e, sign=1, out=None):
     return out
 
 
+def rule_reset_before_callbacks(P):
+    """evbuffer_run_callbacks: the pending counters are taken (copied into the report and cleared) BEFORE the first callback runs.  A callback may change the buffer it watches; that nested
+    change re-enters this function: with the counters still standing the outer change would be reported a second time, and a reset after the loop would wipe what the callback did."""
+    r = Rule("C13-reset-first", "K3", "evbuffer_run_callbacks never resets n_add_for_cb / n_del_for_cb after a user callback may have run in the same call", floor=2)
+    f = P.fn("evbuffer_run_callbacks")
+    cbs = [el for el in f.calls() if isinstance(el.e[1], list) and el.e[1] and el.e[1][0] in ("slot", "ptr")]
+    resets = [el for el, lhs, op, rhs in f.stores() if is_e(strip(lhs), "fld") and strip(lhs)[2] in ("evbuffer.n_add_for_cb", "evbuffer.n_del_for_cb") and op == "="]
+    r.inst("sites", {"callback_invocations": [c.where() for c in cbs], "counter_resets": [x.where() for x in resets]})
+    if not cbs or not resets:
+        r.brk("evbuffer_run_callbacks: callback invocations (%d) or counter resets (%d) not found" % (len(cbs), len(resets)))
+        return r
+    for c in cbs:
+        w = f.path_avoiding(c.pos(), lambda x: x in resets, lambda x: False)
+        r.inst(("after", c.n), {"callback": c.where(), "reset_reachable_afterwards": w.where() if w is not None else None})
+        if w is not None:
+            r.bad("K3:evbuffer_run_callbacks:counters-reset-after-callback", w.where(), f.name,
+                  "%s is reached after the callback at line %d has run: a change the callback made to the buffer is wiped (never reported), and until then a nested run sees the outer change again (reported twice)" % (show(w.e)[:50], c.line))
+    return r
+
+
 def run(ctx, config):
     P = ctx.prog(UNITS, config)
     M = bufmodel.BufModel(P)
@@ -320,6 +340,7 @@ def run(ctx, config):
     rc.desc = "pending callback counts (n_add_for_cb / n_del_for_cb) after each evbuffer operation equal the bytes it added and removed, on every layout of the family"
     rules.append(rc)
     rules.append(rule_pending_kept(P))
+    rules.append(rule_reset_before_callbacks(P))
     return rules
 
 
